@@ -584,6 +584,17 @@ def _arctan2(y, x):
     return out
 
 
+def _fill_diagonal(a, val):
+    """np.fill_diagonal: in place, one value for every diagonal entry or one value per entry"""
+    if not is_arr(a) or a.ndim != 2:
+        raise Opaque('np.fill_diagonal outside the model')
+    n = min(a.shape)
+    vals = list(np.ravel(np.asarray(val, dtype=object))) if (is_arr(val) or isinstance(val, (list, tuple))) else [val]
+    for i in range(n):
+        a[i, i] = vals[i % len(vals)]
+    return None
+
+
 def _arange(*a, **k):
     """np.arange on concrete numbers: start + i*step for i < ceil((stop - start) / step)"""
     if any(kk != 'dtype' for kk in k):
@@ -649,6 +660,8 @@ NP_FUNCS = {
     'numpy.linalg.norm': lambda v, axis=None, keepdims=False, **k: (np.expand_dims(_norm_axis(v, axis), int(axis)) if (keepdims and axis is not None) else _norm_axis(v, axis)),
     'numpy.linalg.det': lambda a: _mat(a).det(), 'numpy.linalg.inv': lambda a: _unmat(_mat(a).inv()),
     'numpy.linalg.solve': lambda a, b: _unmat(_mat(a).solve(_mat(b))) if np.ndim(b) == 2 else arr(list(_mat(a).solve(sp.Matrix(list(b))))),
+    'numpy.diag_indices': lambda n_, ndim=2: tuple(np.diag_indices(int(n_), int(ndim))),
+    'numpy.fill_diagonal': lambda a, val, wrap=False: _fill_diagonal(a, val),
     'numpy.tril_indices': lambda n_, k=0, m=None: tuple(np.tril_indices(int(n_), int(k), None if m is None else int(m))),
     'numpy.triu_indices': lambda n_, k=0, m=None: tuple(np.triu_indices(int(n_), int(k), None if m is None else int(m))),
     'numpy.ix_': lambda *a: np.ix_(*[np.array([int(v) for v in np.ravel(x)], dtype=int) for x in a]),
